@@ -19,6 +19,7 @@ LEVEL = "fault_enumeration"
 NEEDS_RUST = True
 WORKERS = 14
 CASE_TIMEOUT = 150
+QUIESCENCE_SCOPE = "process"   # helpers are polling feeders only
 QUIESCENCE_AFTER = 10.0
 REQUIRED_OBS = ["premise_held", "outcome:raised"]
 RULE = ("datasets (fb/npz/tfrec x compression, 3..6 shards) x damaged shard position (first/middle/last/two) x "
